@@ -182,8 +182,50 @@ IsKv(ln) == ln.t = "kv"
 KeysOf(L) == {L[i].k : i \in {j \in 1..Len(L) : IsKv(L[j])}}
 LastIdx(L, k) == CHOOSE i \in 1..Len(L) : /\ IsKv(L[i]) /\ L[i].k = k
                                           /\ \A j \in (i + 1)..Len(L) : ~(IsKv(L[j]) /\ L[j].k = k)
-\* what loading the file yields: the last line of a key wins
-ParseMap(L) == [k \in KeysOf(L) |-> L[LastIdx(L, k)].v]
+\* the text the file stores for each key: the last line of a key wins
+RawMap(L) == [k \in KeysOf(L) |-> L[LastIdx(L, k)].v]
+
+\* The properties syntax gives a key the stored text with every reference ${name} replaced
+\* by the value of name: the value of the key of that name in the same file, else of the
+\* environment variable of that name, else nothing; the value put in is itself expanded first
+\* (references nest).  The leftmost "${" is resolved first and the text is scanned again from
+\* its beginning after each replacement; a name ends at the first '}' after its "${".  A
+\* reference that leads back to a key being expanded (a=${a}; a=${b}, b=${a}), a "${" without
+\* a '}' and a nesting deeper than 64 make the FILE unloadable: the parser rejects it as a whole.
+\* Expand(s, stack, M, E) = <<TRUE, expansion>> | <<FALSE, <<>>>>; stack = the keys under expansion.
+XFail == <<FALSE, <<>>>>
+FindOpen(s0) == Bind(s0, LAMBDA s :
+  LET O == {i \in 1..(Len(s) - 1) : s[i] = 36 /\ s[i + 1] = 123}
+  IN IF O = {} THEN 0 ELSE CHOOSE i \in O : \A j \in O : i <= j)
+FindClose(s0, from) == Bind(s0, LAMBDA s :
+  LET C == {j \in from..Len(s) : s[j] = 125}
+  IN IF C = {} THEN 0 ELSE CHOOSE j \in C : \A x \in C : j <= x)
+RECURSIVE Expand(_, _, _, _)
+Expand(s0, stack, M, E) == Bind(s0, LAMBDA s :
+  IF Len(stack) > 64 THEN XFail
+  ELSE Bind(FindOpen(s), LAMBDA i :
+    IF i = 0 THEN <<TRUE, s>>
+    ELSE Bind(FindClose(s, i + 2), LAMBDA j :
+      IF j = 0 THEN XFail
+      ELSE Bind(SubSeq(s, i + 2, j - 1), LAMBDA name :
+        IF \E x \in 1..Len(stack) : stack[x] = name THEN XFail
+        ELSE Bind(Expand(IF name \in DOMAIN M THEN M[name] ELSE IF name \in DOMAIN E THEN E[name] ELSE <<>>,
+                         Append(stack, name), M, E), LAMBDA r :
+               IF ~r[1] THEN XFail
+               ELSE Expand(SubSeq(s, 1, i - 1) \o r[2] \o SubSeq(s, j + 1, Len(s)), stack, M, E))))))
+
+\* the value of the text v of key k in the file with the stored texts M, environment E
+XVal(k, v, M, E) == Expand(v, <<k>>, M, E)
+\* the parser accepts the file: every key has a value (E: the process environment)
+LoadableIn(L, E) == Bind(RawMap(L), LAMBDA M : \A k \in DOMAIN M : XVal(k, M[k], M, E)[1])
+\* what loading the file yields
+ParseMapIn(L, E) == Bind(RawMap(L), LAMBDA M : [k \in DOMAIN M |-> XVal(k, M[k], M, E)[2]])
+\* the file with every key line showing the value the syntax gives THAT line's text
+XLines(L, E) == Bind(RawMap(L), LAMBDA M :
+  [i \in 1..Len(L) |-> IF IsKv(L[i]) THEN KvLine(L[i].k, XVal(L[i].k, L[i].v, M, E)[2]) ELSE L[i]])
+\* ... in the process environment of the configuration object (a variable, like the file)
+ParseMap(L) == ParseMapIn(L, opt.env)
+Loadable(L) == LoadableIn(L, opt.env)
 \* the value a key has in a file; an empty value and an absent key are the same to every getter
 Val(L, k) == IF k \in KeysOf(L) THEN ParseMap(L)[k] ELSE <<>>
 
@@ -245,9 +287,12 @@ Render(L, kv, order) == Body(L, kv) \o [i \in 1..Len(order) |-> KvLine(order[i],
 
 \* comparison ignores blank lines and key lines with an empty value (the property is silent on both)
 Cmp(L) == SelectSeq(L, LAMBDA ln : ln.t = "c" \/ (IsKv(ln) /\ ln.v # <<>>))
+\* Lines are compared by the VALUE the syntax gives them (a line `d=${base}/logs` may come back as
+\* `d=/opt/logs`): the old lines carry the values they had in the old file -- "other keys keep
+\* their values" also when the write-back changes a key they refer to.
 RenderOK(L, kv, after) ==
-  LET E == Cmp(Body(L, kv))
-      A == Cmp(after)
+  LET E == Cmp(Body(XLines(L, opt.env), kv))
+      A == Cmp(XLines(after, opt.env))
       NK == NewKeys(L, kv)
   IN /\ Len(A) = Len(E) + Cardinality(NK)
      /\ SubSeq(A, 1, Len(E)) = E
@@ -350,16 +395,17 @@ RlStat ==
 
 RlParse ==
   /\ rl.pc = "parse" /\ ~Dead
-  /\ Exists(Conf)
+  /\ Exists(Conf) /\ Loadable(File)
   /\ rl' = [rl EXCEPT !.pc = IF StampAt = "after" THEN "restat" ELSE "apply", !.snap = Parsed, !.todo = DOMAIN Parsed,
                       !.from = mem, !.to = Merge(mem, Parsed)]
   /\ UNCHANGED <<fsvars, mem, lastSeen, note, nnote, busy, fatal, fresh, opt, wkv>>
 
-\* the file vanished between the stat and the read: the parser fails, the poll is over (the stamp
-\* of the version that could not be read stays remembered; the next poll finds the file missing)
+\* the file vanished between the stat and the read, or the parser rejects it: the parser fails, the
+\* poll is over (the stamp of the version that could not be read stays remembered; the next poll
+\* finds the file missing / unchanged)
 RlParseFail ==
   /\ rl.pc = "parse" /\ ~Dead
-  /\ ~Exists(Conf)
+  /\ ~Exists(Conf) \/ ~Loadable(File)
   /\ rl' = RlIdle
   /\ UNCHANGED <<fsvars, mem, lastSeen, note, nnote, busy, fatal, fresh, opt, wkv>>
 
@@ -435,11 +481,14 @@ Get ==
 
 ReloadAtomic ==
   /\ rl.pc = "idle" /\ ~Dead
-  /\ IF Changed
+  /\ IF Changed /\ Loadable(File)
        THEN /\ lastSeen' = Stamp(Conf)
             /\ mem' = Merge(mem, Parsed)
             /\ note' = Told(Merge(mem, Parsed))
             /\ nnote' = nnote + 1
+       ELSE IF Changed            \* the parser rejects the file: the configuration stays as it is
+         THEN /\ lastSeen' = Stamp(Conf)
+              /\ UNCHANGED <<mem, note, nnote>>
        ELSE IF GoneNews
          THEN /\ lastSeen' = Gone
               /\ mem' = opt.defs
@@ -491,7 +540,8 @@ SvGone ==
 ---------------------------------------------------------------------------
 (* the property *)
 
-Visible(m) == \A k \in KeysOf(File) : k \in DOMAIN m /\ m[k] = ParseMap(File)[k]
+\* (a file the parser rejects has no key=value pairs: the property is silent about it)
+Visible(m) == Loadable(File) => \A k \in KeysOf(File) : k \in DOMAIN m /\ m[k] = ParseMap(File)[k]
 
 \* once the file stopped changing and one reload ran, every key=value of it is in the map
 \* (and so is what the getters below compute from)
@@ -499,7 +549,7 @@ EventuallyVisible == (fresh /\ ~Dead) => Visible(mem)
 
 \* ... and through the getters: a key the file sets is answered from the file, also when the
 \* file sets it to the empty value and the environment has a variable of that name
-VisibleThroughGetters == (fresh /\ ~Dead) => \A k \in KeysOf(File) : GetValue(k) = Trim(ParseMap(File)[k])
+VisibleThroughGetters == (fresh /\ ~Dead /\ Loadable(File)) => \A k \in KeysOf(File) : GetValue(k) = Trim(ParseMap(File)[k])
 
 \* ... and every observer that is registered now and was registered when the last notification
 \* round ran -- under a new name or in place of another one -- has been shown a configuration
